@@ -256,6 +256,9 @@ class Env:
         dev = max(float(np.max(np.abs(loc[0] - np.trace(loc[0]) / loc[0].shape[0] * np.eye(loc[0].shape[0])))) for loc in self.locals)
         self.identity_first = dev <= 1e-12
         self.flag_decidable = dev <= 1e-12 or dev >= 1e-3  # quara's test uses numpy's default closeness
+        # the equality-constrained variable forms hard-code the first coefficient (+1/sqrt(d), sum of POVM vecs = +sqrt(d) e_0):
+        # they denote unit-trace / identity-sum objects only when B_0 = +I/sqrt(d) (a rotation may give -I/sqrt(d))
+        self.identity_plus = self.identity_first and float(np.trace(self.basis[0]).real) > 0
         if self.kind in ("normal", "hermitian"):
             self.c_sys = build.c_sys_for(self.shape, kind=self.kind)  # quara's own getters
         else:
@@ -306,7 +309,9 @@ def enum_configs(tier):
                     c["rot"] = fixed_rot(shape, kind, v)
                 cfgs.append(c)
     if tier != "quick":
-        cfgs.append({"shape": "2x3", "kind": "normal"})  # d^4 = 1296 unit HS matrices: sparse basis only (cost)
+        # d^4 = 1296 unit HS matrices: the two sparse bases only (a rotated 36-element basis makes quara's dict tables ~1.7M entries)
+        cfgs.append({"shape": "2x3", "kind": "normal"})
+        cfgs.append({"shape": "2x3", "kind": "hermitian"})
     return cfgs
 
 
@@ -1046,7 +1051,7 @@ def check_round_trip(case, ctx):
         if not flag:
             mtx = sum(x[k] * herm_unit(d, k) for k in range(n))
             rt("rt:dm->var->dm[False]", lambda: S.to_density_matrix_from_var(c, S.to_var_from_density_matrix(c, mtx.copy(), False), False), mtx)
-        elif env.identity_first:
+        elif env.identity_plus:
             # under the equality constraint the matrix must have unit trace
             mtx = sum(x[k] * herm_unit(d, k) for k in range(n))
             mtx = mtx + (1 - np.trace(mtx).real) / d * np.eye(d)
@@ -1065,9 +1070,9 @@ def check_round_trip(case, ctx):
             var = np.concatenate(vs[:-1]) if flag else np.concatenate(vs)
             tol_m = tol * m
             rt(f"rt:var->mats->var[{flag}]", lambda: P.to_var_from_matrices(c, P.to_matrices_from_var(c, var.copy(), flag), flag), var, tol_m)
-            if flag and env.identity_first:
+            if flag and env.identity_plus:
                 ms[-1] = np.eye(d) - sum(ms[:-1])
-            if (not flag) or env.identity_first:
+            if (not flag) or env.identity_plus:
                 rt(f"rt:mats->var->mats[{flag}]", lambda: P.to_matrices_from_var(c, P.to_var_from_matrices(c, [q.copy() for q in ms], flag), flag), np.array(ms), tol_m)
         nontriv = nontriv or is_complex_structured(np.array(ms))
     elif kind == "hs_choi":
@@ -1319,7 +1324,7 @@ def _mag(cls, u, eps):
     if cls == "below":
         return eps * (0.001 + 0.499 * u)  # (0, eps/2]
     if cls == "above":
-        return eps * (2.0 + 98.0 * u)  # [2 eps, 100 eps]
+        return eps * (8.0 + 92.0 * u)  # [8 eps, 100 eps]: above 2*eps*max(1, max|entry|) for every generated array (max|entry| < 4)
     return 0.1 + 2.9 * u + 2 * eps
 
 
@@ -1352,7 +1357,13 @@ def check_truncate(case, ctx):
                 Settings.set_atol(EPS)
         return mu.truncate_hs(a, eps_truncate_imaginary_part=eps, is_zero_imaginary_part_required=required)
 
-    big_im = bool(np.any(np.abs(im) >= 2 * eps))
+    # the imaginary-part threshold is eps for arrays of at most unit scale and eps*max|entry| above it (repaired contract,
+    # /repo f4a0aa9); verdicts are asserted only outside [eps/2, 2*eps*max(1, max|entry|)), which is right under both readings
+    s_arr = max(1.0, float(np.max(np.abs(a0), initial=0.0)))
+    big_im = bool(np.any(np.abs(im) >= 2 * eps * s_arr))
+    if bool(np.any((np.abs(im) > eps / 2) & (np.abs(im) < 2 * eps * s_arr))):
+        ctx.label("margin-band")
+        return
     sub_im = bool(np.any((np.abs(im) > 0) & (np.abs(im) <= eps / 2)))
     sub_re = bool(np.any((np.abs(re) > 0) & (np.abs(re) <= eps / 2)))
     if required and big_im:
@@ -1375,8 +1386,8 @@ def check_truncate(case, ctx):
         ctx.equal(np.asarray(out, dtype=np.float64), exp_re.astype(np.float64), "truncate_hs:values")
     else:
         # only entries whose real part is itself above the threshold (or the whole entry is zero) are specified
-        exp_im = np.where(np.abs(im) < eps, 0.0, im).reshape(a.shape)
-        spec = ((np.abs(re) >= 2 * eps) | ((re == 0) & (np.abs(im) < eps))).reshape(a.shape)
+        exp_im = np.where(np.abs(im) <= eps / 2, 0.0, im).reshape(a.shape)
+        spec = ((np.abs(re) >= 2 * eps) | ((re == 0) & (np.abs(im) <= eps / 2))).reshape(a.shape)
         o = np.asarray(out, dtype=complex)
         ctx.equal(o.real[spec], exp_re[spec], "truncate_hs:values_not_required_re")
         ctx.equal(o.imag[spec], exp_im[spec], "truncate_hs:values_not_required_im")
